@@ -62,6 +62,13 @@ def expressions(rnd, objs, plain, feats_by_class):
             ex += ['%s.lcm.' % o, '%s.csm(' % o, '%s.lprop' % o,
                    '%s.mprop.' % o, '%s.mnd.' % o, '%s.prop.' % o, '%s.nd.' % o, '%s.c_leaf.' % o,
                    '%s().' % o, '%s.cmeth().' % o, '%s.meta_method(' % o]
+    for o in objs:
+        if o.endswith('s') and o[:-1] in objs and o.startswith('o'):
+            # two instances of one class, one shadowing the non-data descriptor `nd` in its
+            # __dict__, resolved one after the other by the same Interpreter
+            a, b = o, o[:-1]
+            ex += ['[%s.nd, %s.nd][1].' % (a, b), '[%s.nd, %s.nd][0].' % (b, a),
+                   '%s.nd\n%s.nd.' % (a, b), '%s.nd\n%s.nd.' % (b, a), '%s.nd\n%s.nd' % (a, b)]
     ex += [p[0] for p in plain] + [p[0] + '.' for p in plain]
     return ex
 
@@ -100,7 +107,7 @@ def run(spec):
     try:
         for safe in (True, False):
             jedi.settings.allow_unsafe_interpreter_executions = not safe
-            for e in exprs[:70]:
+            for e in exprs[:80]:
                 lines = e.split('\n')
                 if e.endswith('.'):
                     methods = ['complete']
@@ -115,6 +122,9 @@ def run(spec):
                     ok, interp = apimon.call(rec, 'Interpreter', jedi.Interpreter, e, [namespace], witness=w)
                     if not ok:
                         continue
+                    if len(lines) == 2 and lines[0].endswith('.nd'):
+                        # the first line is resolved first, by the same Interpreter object
+                        apimon.call(rec, 'infer', interp.infer, 1, len(lines[0]), witness=w)
                     ok, r = apimon.call(rec, m, getattr(interp, m), len(lines), len(lines[-1]), witness=w)
                     after = dict(COUNTER)
                     moved = {k: after[k] - before.get(k, 0) for k in after if after[k] != before.get(k, 0)}
